@@ -131,13 +131,60 @@ func c01Profile(tier string) *eng.Profile {
 	return p
 }
 
+// escAll marks every call of the ops / queries as Go-escaped (core.Call.Esc).
+func escOps(ops []core.Op) []core.Op {
+	out := make([]core.Op, len(ops))
+	for i, o := range ops {
+		o.Calls = escCalls(o.Calls)
+		out[i] = o
+	}
+	return out
+}
+
+func escCalls(cs []core.Call) []core.Call {
+	out := make([]core.Call, len(cs))
+	for i, c := range cs {
+		c.Esc = true
+		out[i] = c
+	}
+	return out
+}
+
+// c01BytesProfile: the KV alphabet over keys made of the extreme byte values (a NUL key, keys
+// ending in 0xff), with scan bounds and prefixes of the same kind; also run in sparse mode for C02.
+func c01BytesProfile(tier, id string) *eng.Profile {
+	keys := []string{`\x00`, `a\xff`, `\xff`}
+	cf := []core.Cfg{{Mode: core.KV, Seg: 100}, {Mode: core.K, Seg: 100}, {Mode: core.KV, RW: core.M, Start: core.M, Seg: 100}}
+	if id == "C02" {
+		cf = []core.Cfg{{Mode: core.S, Seg: 100}, {Mode: core.S, RW: core.M, Start: core.M, Seg: 150}}
+	}
+	ops := escOps(kvOps([]string{"b"}, keys, true))
+	qs := escCalls(kvObs([]string{"b"}, append(append([]string(nil), keys...), `a`, `\xff\xff`),
+		[]string{``, `\x00`, `\x00\x00`, `a`, `a\xff`, `b`, `\xff`, `\xff\xff`}, []string{``, `\x00`, `a`, `a\xff`, `\xff`}, id == "C01"))
+	p := &eng.Profile{ID: id, Name: "kv-bytes", Cfgs: cf,
+		Ops:   func(core.Cfg) []core.Op { return ops },
+		Obs:   func(core.Cfg) []core.Call { return qs },
+		Depth: 2,
+		Judge: func(c *eng.Ctx) { dirFeatures(c); eng.JudgeModel(c, id) },
+	}
+	if tier == "thorough" {
+		p.Depth = 3
+	}
+	return p
+}
+
 func init() {
-	profileBuilders = append(profileBuilders, func(tier string) { Register(c01Profile(tier)) })
+	profileBuilders = append(profileBuilders, func(tier string) {
+		Register(c01Profile(tier))
+		Register(c01BytesProfile(tier, "C01"))
+		Register(c01BytesProfile(tier, "C02"))
+	})
 	Registry["C01"] = func(r *Run) {
-		r.Rule = "every sequence of <=depth ops over the KV alphabet (2 buckets x 3 keys x {put '',put x,put live-TTL,put expired-TTL,delete}, tick, reopen, 4 two-call transactions) in every configuration; after each history every Get/GetAll/RangeScan/PrefixScan/PrefixSearchScan of the observation grid is compared with the ordered-map+TTL model; wide tier on the exported BPTree: every insertion order of 8 (thorough 9) keys with a tombstone re-insertion, and monotone fills of 24..40 (thorough 16..64) keys followed by every sequence of <=2 insertions into every gap (inner-node splits), with Find/All/Range/PrefixScan and structural invariants after every insertion; distinct = distinct canonical states; non-trivial = model states in which some read returns data and some read fails"
+		r.Rule = "every sequence of <=depth ops over the KV alphabet (2 buckets x 3 keys x {put '',put x,put live-TTL,put expired-TTL,delete}, tick, reopen, 4 two-call transactions) in every configuration (and, one level less deep, over keys, bounds and prefixes made of the extreme byte values \\x00, a\\xff, \\xff); after each history every Get/GetAll/RangeScan/PrefixScan/PrefixSearchScan of the observation grid is compared with the ordered-map+TTL model; wide tier on the exported BPTree: every insertion order of 8 (thorough 9) keys with a tombstone re-insertion, and monotone fills of 24..40 (thorough 16..64) keys followed by every sequence of <=2 insertions into every gap (inner-node splits), with Find/All/Range/PrefixScan and structural invariants after every insertion; distinct = distinct canonical states; non-trivial = model states in which some read returns data and some read fails"
 		r.Assume = []string{"key/value/bucket bytes outside the alphabet are not covered", "virtual clock: seconds advance only by tick ops"}
 		r.Required = []string{"rotated", "tick", "reopen", "delete", "ttl"}
 		r.Explore(c01Profile(r.Tier))
+		r.Explore(c01BytesProfile(r.Tier, "C01"))
 		runWide(r)
 		runKVLong(r, "C01", []core.Cfg{{Mode: core.K, Seg: 392}, {Mode: core.KV, RW: core.M, Start: core.M, Seg: 392}})
 		runValues(r, "C01", false, []int{core.KV, core.K})
